@@ -299,8 +299,9 @@ pub fn floats() -> Vec<f64> {
     ]
 }
 
-pub const TIMESTAMPS: [Option<i64>; 5] = [None, Some(0), Some(1), Some(-1), Some(i64::MAX)];
+pub const TIMESTAMPS: [Option<i64>; 6] = [None, Some(0), Some(1), Some(-1), Some(i64::MAX), Some(i64::MIN)];
 pub const COUNTS: [u64; 3] = [0, 1, 9007199254740993];
+pub const BIG_COUNTS: [u64; 5] = [(1 << 63) - 1, 1 << 63, (1 << 63) + 1, u64::MAX - 1, u64::MAX];
 
 fn sample(typ: RType, v: f64, aux: f64, shape: usize) -> RMetric {
     let mut m = RMetric::default();
@@ -344,6 +345,28 @@ pub fn gen_families(level: usize, types: &[RType]) -> Vec<RFamily> {
                     }
                     out.push(RFamily { name: "m".into(), help: "h".into(), typ, metrics: vec![sample(typ, v, aux, shape)] });
                 }
+            }
+        }
+        // two samples of one family holding every ordered pair of floats in the same slot (value; bucket bound /
+        // quantile at the same index): anything remembered from one sample to the next within a family shows
+        for &a in &fl {
+            for &b in &fl {
+                let mut m1 = sample(typ, a, a, 2);
+                m1.labels = vec![("l".into(), "1".into())];
+                let mut m2 = sample(typ, b, b, 2);
+                m2.labels = vec![("l".into(), "2".into())];
+                out.push(RFamily { name: "pair".into(), help: "h".into(), typ, metrics: vec![m1, m2] });
+            }
+        }
+        // counts at the ends of the unsigned and signed 64-bit ranges
+        if matches!(typ, RType::Histogram | RType::Summary) {
+            for &c in &BIG_COUNTS {
+                let mut m = RMetric::default();
+                match typ {
+                    RType::Histogram => m.histogram = Some((c, 1.0, vec![(0.5, c / 2), (1.0, c), (f64::INFINITY, c)])),
+                    _ => m.summary = Some((c, 1.0, vec![(0.5, 1.0)])),
+                }
+                out.push(RFamily { name: "big_count".into(), help: "h".into(), typ, metrics: vec![m] });
             }
         }
         // label shapes: 0..2 pairs with every assignment from STRS
